@@ -13,6 +13,7 @@ import (
 
 	"verifharness/apkb"
 	"verifharness/apkv"
+	"verifharness/appx"
 	"verifharness/c04"
 	"verifharness/c06"
 	"verifharness/c07"
@@ -53,6 +54,7 @@ var handlers = map[string]func([]string) string{
 	"JAR":   jar.Handle,
 	"APK":   apkb.Handle,
 	"APKV":  apkv.Handle,
+	"APPX":  appx.Handle,
 	"DEB":   deb.Handle,
 	"ZIPRW": ziprw.Handle,
 	"CAB":   cab.Handle,
@@ -136,7 +138,7 @@ func forProp(prop string, g func(*bufio.Writer, uint64, string, string)) genFunc
 
 func init() {
 	// C05 (digests are what the specifications prescribe): PE image hash ops, PE checksum ops, APK merkle ops, ECDSA width ops
-	gens["C05"] = []genFunc{forProp("C05", pe.Gen), filtered(c09.Gen, "cksum", "fixpe", "fixpehex", "merkle"), filtered(c19.Gen, "ecdsa", "ecdsasign"), thinned(filtered(c19.Gen, "canon"), 4), forProp("C05", c18.MsiGen), forProp("C05", jar.Gen), forProp("C05", apkb.Gen), forProp("C05", cab.Gen)}
+	gens["C05"] = []genFunc{forProp("C05", pe.Gen), filtered(c09.Gen, "cksum", "fixpe", "fixpehex", "merkle"), filtered(c19.Gen, "ecdsa", "ecdsasign"), thinned(filtered(c19.Gen, "canon"), 4), forProp("C05", c18.MsiGen), forProp("C05", jar.Gen), forProp("C05", apkb.Gen), forProp("C05", cab.Gen), forProp("C05", appx.Gen)}
 	gens["C18"] = append(gens["C18"], forProp("C18", c18.MsiGen))
 	for _, p := range []string{"C01", "C02", "C03", "C08", "C11"} {
 		gens[p] = append(gens[p], forProp(p, pe.Gen))
@@ -166,6 +168,7 @@ func init() {
 			gens[p] = append(gens[p], forProp(p, e2e.Gen))
 			gens[p] = append(gens[p], forProp(p, xsig.Gen))
 			gens[p] = append(gens[p], forProp(p, deb.Gen))
+			gens[p] = append(gens[p], forProp(p, appx.Gen))
 		}
 	}
 }
